@@ -383,7 +383,12 @@ impl<S: USet> Eng<S> {
 
     // ---------------------------------------------------------------- constructors
     pub fn op_new(&mut self, i: usize) {
-        self.slots[i] = Some(S::new());
+        // `new()` and `Default::default()` are the same empty word
+        let s = if self.rng.chance(1, 3) { S::dflt() } else { S::new() };
+        if repr_string(&s) != "E" || s.len() != 0 {
+            self.fail("C01,C02,C15", format!("a new set is not the empty word: {}", repr_string(&s)));
+        }
+        self.slots[i] = Some(s);
         self.oracle[i].clear();
         self.hw[i] = 0;
         self.hinted[i] = false;
